@@ -147,6 +147,58 @@ def relational_ops(rep, seed):
             rep.violation("reverse sweep raises %s" % type(ex).__name__, {"what": repr(ex)[-300:]})
 
 
+def piecewise_truncated(rep, seed, rounds):
+    """functions that select a branch per element (maximum, minimum, max, absolute, sign, comparisons, floor division):
+    coefficients drawn from {-1, 0, 1}, so that ties of the zeroth coefficients, ties continued at order 1, 2, .. and
+    elements without any tie occur together in one argument; the branch is decided by what NumPy decides on the zeroth
+    coefficients, whatever the degree: D' = 1 is the NumPy value and coefficients < D' do not change with D"""
+    algopy = load_algopy()
+    from algopy import UTPM
+    rng = numpy.random.RandomState((seed + 11) % 2 ** 31)
+    ops = [("maximum", lambda x, y: algopy.maximum(x, y), numpy.maximum), ("minimum", lambda x, y: algopy.minimum(x, y), numpy.minimum),
+           ("maximum(x, 0)", lambda x, y: algopy.maximum(x, x.zeros_like()), lambda a, b: numpy.maximum(a, 0 * a)),
+           ("minimum(x, 0)", lambda x, y: algopy.minimum(x, x.zeros_like()), lambda a, b: numpy.minimum(a, 0 * a)),
+           ("max", lambda x, y: UTPM.max(x), lambda a, b: numpy.max(a)),
+           ("absolute", lambda x, y: algopy.absolute(x), lambda a, b: numpy.absolute(a)),
+           ("sign", lambda x, y: algopy.sign(x), lambda a, b: numpy.sign(a)),
+           ("botched_clip", lambda x, y: algopy.special.botched_clip(-0.5, 0.5, x), lambda a, b: numpy.clip(a, -0.5, 0.5)),
+           ("x < y", lambda x, y: x < y, lambda a, b: bool((a < b).all())), ("x >= y", lambda x, y: x >= y, lambda a, b: bool((a >= b).all()))]
+    for it in range(rounds):
+        D = 3 + it % 3; P = 1 + it % 2
+        shp = [(4,), (5,), (3,)][it % 3]
+        xd = rng.randint(-1, 2, size=(D, P) + shp).astype(float)
+        yd = rng.randint(-1, 2, size=(D, P) + shp).astype(float)
+        if it % 2 == 0:
+            # the documented shape of the problem: one element with an exact tie, the others decided at order 0 but with equal
+            # (zero) first-order coefficients
+            xd[0, :, 0] = yd[0, :, 0]
+            xd[1, :, 1:] = 0.0; yd[1, :, 1:] = 0.0
+            xd[0, :, 1] = -1.0; yd[0, :, 1] = 1.0
+            xd[0, :, 2] = 1.0; yd[0, :, 2] = -1.0
+        for name, f, npf in ops:
+            rep.case(("piecewise", name, it), nontrivial=True); rep.replayed(1)
+            try:
+                full = f(UTPM(xd.copy()), UTPM(yd.copy()))
+                for Dp in range(1, D):
+                    part = f(UTPM(xd[:Dp].copy()), UTPM(yd[:Dp].copy()))
+                    if isinstance(full, (bool, numpy.bool_)) or isinstance(part, (bool, numpy.bool_)):
+                        if bool(part) != bool(full):
+                            rep.violation("%s: truth value computed with D=%d differs from the one computed with D=%d" % (name, D, Dp), {"D": D, "Dp": Dp, "P": P}); break
+                        continue
+                    if part.data.shape != full.data[:Dp].shape or not numpy.allclose(part.data, full.data[:Dp], rtol=1e-12, atol=1e-13, equal_nan=True):
+                        rep.violation("%s: coefficients < %d computed with D=%d differ from those computed with D=%d" % (name, Dp, D, Dp),
+                                      {"D": D, "Dp": Dp, "P": P, "x0": xd[0].tolist(), "y0": yd[0].tolist()}); break
+                # D' = 1 reproduces NumPy on the zeroth coefficients, direction by direction
+                one = f(UTPM(xd[:1].copy()), UTPM(yd[:1].copy()))
+                if name not in ("botched_clip",) and not isinstance(one, (bool, numpy.bool_)):
+                    for p in range(P):
+                        ref = numpy.asarray(npf(xd[0, p], yd[0, p]), dtype=float)
+                        if one.data[0, p].shape != ref.shape or not numpy.allclose(one.data[0, p], ref, equal_nan=True):
+                            rep.violation("%s: D=1 differs from NumPy on the zeroth coefficients" % name, {"P": P, "dir": p, "x0": xd[0, p].tolist(), "y0": yd[0, p].tolist()}); break
+            except Exception as ex:
+                rep.violation("%s raises %s" % (name, type(ex).__name__), {"what": repr(ex)[-300:], "D": D, "P": P})
+
+
 def reverse_truncation(rep, seed, rounds):
     """reverse mode over the whole differentiable API: adjoint coefficients of order < D' computed at degree D equal those
     computed from inputs and seed truncated to D' (programs shared with C03)"""
@@ -197,6 +249,7 @@ def run(rep, tier, seed):
     U.machine_check(rep, [dict(name="cmp_bcast_D3", D=3, P=2, pool="PoolBcast", acts="ActsCmp", maxlen=2, cmps="CmpSet")], "C12")
     functions_truncated(rep, tier, seed)
     relational_ops(rep, seed)
+    piecewise_truncated(rep, seed, 24 if q else 200)
     reverse_truncation(rep, seed, 2 if q else 8)
     return rep.finish("cases: every TLC-generated behaviour at D re-run at every D' < D; every function x coefficient pattern at every D' <= D "
                       "against the leading block of the C-matrix; 28 operations, factorizations and reverse sweeps at D vs D' < D; "
